@@ -107,7 +107,9 @@ InitOb(p) ==
     \* Notify behind its block_on waker, and the number of polls of the block_on in progress
     aw   |-> [w \in Q.aws |-> 0],
     awv  |-> [w \in Q.aws |-> BotFor(p)],               \* view handed over by the AtomicWaker's internal lock
-    bon  |-> [t \in 1..Len(Q.threads) |-> [flag |-> FALSE, spurred |-> FALSE, view |-> BotFor(p), polls |-> 0]] ]
+    bon  |-> [t \in 1..Len(Q.threads) |-> [flag |-> FALSE, spurred |-> FALSE, view |-> BotFor(p), polls |-> 0]],
+    \* raw waker slots: a clone of the block_on waker of thread rs[s] kept in plain shared memory (0: empty)
+    rs   |-> [s \in Q.slots |-> 0] ]
 
 \* the initial state of program p as a record (used by Init and by the trace spec's reset)
 I0(p) ==
@@ -476,9 +478,9 @@ CanNWait(n) == ob.ntf[n].flag \/ (NotifySpur /\ ~ob.ntf[n].spurred)
 
 NNotify(t, ins, me) ==
   LET n == ins.o IN
-  \* which notifiers a woken waiter synchronises with when notifications coalesce is not documented:
-  \* strongest reading all of them (loom accumulates), weakest only the last one
-  /\ ob' = [ob EXCEPT !.ntf[n].flag = TRUE, !.ntf[n].view = IF Strong THEN JoinV(@, me.cur) ELSE me.cur]
+  \* every notification that is pending when the waiter consumes the flag synchronises with it (a
+  \* notify is a release RMW on the flag: coalesced notifications form a release sequence)
+  /\ ob' = [ob EXCEPT !.ntf[n].flag = TRUE, !.ntf[n].view = JoinV(@, me.cur)]
   /\ Plain(t, me) /\ NoRet /\ UNCHANGED st
 
 (* -------------------------------------------------------------- channel *)
@@ -648,8 +650,47 @@ BoWait(t, ins, me) ==
      /\ ob' = [ob EXCEPT !.bon[t].spurred = TRUE]
      /\ sub' = [sub EXCEPT ![t] = "bo_poll"]
      /\ BoBase(t, me) /\ UnchMem /\ NoRet /\ NoRace /\ UNCHANGED <<pc, ash>>
+\* k = "raw": poll = { slot o := cx.waker().clone(); slot ord2 := cx.waker().clone() (if named);
+\*                    v = flag.load(ord); if v = 0 Pending; (second flag w named by the `k2` convention: o2 + "2")
+\*                    Ready(v) }   -- wakers hold their own clones: two of them can notify before the waiter runs
+BoStash(t, slot, nextsub) ==
+  /\ ob' = [ob EXCEPT !.rs[slot] = t]
+  /\ sub' = [sub EXCEPT ![t] = nextsub]
+\* after stashing, the future announces it with a relaxed store of 1 to the atomic o2 \o "r"; the wakers
+\* await that flag first, so they always find the slot filled (the slot itself is memory loom cannot see)
+BoAnnounce(t, ins, me, nextsub) ==
+  LET x == ins.o2 \o "r"  id == <<t, pc[t] + 100 * (ob.bon[t].polls + 1)>> IN
+  \E i \in Insertable(me, x) :
+    /\ mo' = [mo EXCEPT ![x] = Ins(@, i, [id |-> id, val |-> 1])]
+    /\ mview' = (id :> [me.rel EXCEPT !.lv[x] = id]) @@ mview
+    /\ SetMe(t, [me EXCEPT !.cur.lv[x] = id, !.acq.lv[x] = id])
+    /\ ash' = [ash EXCEPT ![x].sto[t] = Clk(me, t)]
+    /\ sub' = [sub EXCEPT ![t] = nextsub]
+    /\ NoRet /\ NoRace /\ UNCHANGED <<pc, glued, relx, scv, st, cells, ob>>
+BoRaw(t, ins, me) ==
+  LET two == ins.ord2 # "" IN
+  CASE sub[t] \in {"", "bo_poll"} ->
+         /\ BoStash(t, ins.o, IF two THEN "bo_s2" ELSE "bo_a")
+         /\ BoBase(t, me) /\ UnchMem /\ NoRet /\ NoRace /\ UNCHANGED <<pc, ash>>
+    [] sub[t] = "bo_s2" ->
+         /\ BoStash(t, ins.ord2, "bo_a")
+         /\ BoBase(t, me) /\ UnchMem /\ NoRet /\ NoRace /\ UNCHANGED <<pc, ash>>
+    [] sub[t] = "bo_a" -> BoAnnounce(t, ins, me, "bo_c")
+    [] sub[t] = "bo_c" ->
+         IF ins.w = 0 THEN BoCheck(t, ins, me, "bo_wait")
+         ELSE \* two flags: o2 first; only if it is set the second one (o2 \o "2") decides
+              LET x == ins.o2 IN
+              \E i \in Readable(me, x) :
+                /\ SetMe(t, ReadMsg(me, x, i, EffAcq(ins.ord)))
+                /\ ash' = [ash EXCEPT ![x].ld[t] = Clk(me, t)]
+                /\ sub' = [sub EXCEPT ![t] = IF mo[x][i].val # 0 THEN "bo_c2" ELSE "bo_wait"]
+                /\ ob' = IF mo[x][i].val # 0 THEN ob ELSE [ob EXCEPT !.bon[t].polls = @ + 1]
+                /\ NoRet /\ UnchMem /\ NoRace /\ UNCHANGED <<pc, scv, st, cells>>
+    [] sub[t] = "bo_c2" -> BoCheck(t, [ins EXCEPT !.o2 = ins.o2 \o "2"], me, "bo_wait")
+    [] sub[t] = "bo_wait" -> BoWait(t, ins, me)
 BlockOn(t, ins, me) ==
-  IF ins.k = "reg-check"
+  IF ins.k = "raw" THEN BoRaw(t, ins, me)
+  ELSE IF ins.k = "reg-check"
   THEN CASE sub[t] \in {"", "bo_poll"} -> BoRegister(t, ins, me, "bo_c")
          [] sub[t] = "bo_c"    -> BoCheck(t, ins, me, "bo_wait")
          [] sub[t] = "bo_wait" -> BoWait(t, ins, me)
@@ -663,9 +704,22 @@ AwWake(t, ins, me) ==
   IF sub[t] = ""
   THEN /\ ob' = IF u = 0 THEN [ob EXCEPT !.awv[w] = JoinV(@, me1.cur)]
                 ELSE [ob EXCEPT !.aw[w] = 0, !.awv[w] = JoinV(@, me1.cur),
-                                !.bon[u].flag = TRUE, !.bon[u].view = IF Strong THEN JoinV(@, me1.cur) ELSE me1.cur]
+                                !.bon[u].flag = TRUE, !.bon[u].view = JoinV(@, me1.cur)]
        /\ sub' = [sub EXCEPT ![t] = "wk"]
        /\ SetMe(t, me1) /\ NoRet /\ NoRace /\ UnchMem /\ UnchRace /\ UNCHANGED <<pc, scv, st>>
+  ELSE /\ sub' = [sub EXCEPT ![t] = ""]
+       /\ SetMe(t, me) /\ Adv(t) /\ NoRet /\ NoRace /\ UnchMem /\ UnchRace /\ UNCHANGED <<scv, st, ob>>
+
+\* wake through a raw slot: "wakeslot" takes the clone and wakes it (Waker::wake), "wakeref" wakes it in
+\* place (Waker::wake_by_ref).  No lock is involved, so only the notification itself orders the waiter.
+RawWake(t, ins, me, take) ==
+  LET s == ins.o  u == ob.rs[s] IN
+  IF sub[t] = ""
+  THEN /\ ob' = IF u = 0 THEN ob
+                ELSE [ob EXCEPT !.rs[s] = IF take THEN 0 ELSE u,
+                                !.bon[u].flag = TRUE, !.bon[u].view = JoinV(@, me.cur)]
+       /\ sub' = [sub EXCEPT ![t] = "wk"]
+       /\ SetMe(t, me) /\ NoRet /\ NoRace /\ UnchMem /\ UnchRace /\ UNCHANGED <<pc, scv, st>>
   ELSE /\ sub' = [sub EXCEPT ![t] = ""]
        /\ SetMe(t, me) /\ Adv(t) /\ NoRet /\ NoRace /\ UnchMem /\ UnchRace /\ UNCHANGED <<scv, st, ob>>
 
@@ -733,6 +787,8 @@ Do(t, ins, me) ==
     [] ins.op = "lzread"   -> LzRead(t, ins, me)
     [] ins.op = "blockon"  -> BlockOn(t, ins, me)
     [] ins.op = "wake"     -> AwWake(t, ins, me)
+    [] ins.op = "wakeslot" -> RawWake(t, ins, me, TRUE)
+    [] ins.op = "wakeref"  -> RawWake(t, ins, me, FALSE)
     [] ins.op = "br"       -> Br(t, ins, me)
     [] ins.op = "panic"    -> Panic(t, ins, me)
     [] ins.op \in {"nop", "stopx", "explore", "skipb"} -> Nop(t, ins, me)
